@@ -4,7 +4,7 @@ func init() {
 	register(&PropSpec{
 		ID: "C16",
 		Explain: "Decides structural clauses of the NYCT trips extension for every feed and all four option combinations (options are branch conditions; both edges are analysed): " +
-			"(NYCT) every write to an entity in updateTripOrVehicle is dominated by proto.HasExtension(tripDesc, E_NyctTripDescriptor); GetTrack is {no extension -> nil; actual track set -> actual; else scheduled}; direction is NORTH -> 0 otherwise 1 (C02 maps 0/1 to False/True); the start time is formatted HH:MM:SS from capture group 1 of TripIDRegex, which is exactly six leading digits in a pattern that accepts the same ids as the documented NYCT format (compared after parsing), only on a successful match, through integer arithmetic only; assigned trips get a vehicle descriptor whose id is the train id; the value handed to the stale-trip filter is false without the descriptor and GetIsAssigned() on every other path; " +
+			"(NYCT) every write to an entity in updateTripOrVehicle is dominated by proto.HasExtension(tripDesc, E_NyctTripDescriptor); GetTrack is {no extension -> nil; actual track set -> actual; else scheduled}; direction is NORTH -> 0 otherwise 1 (C02 maps 0/1 to False/True); the start time is formatted HH:MM:SS from capture group 1 of TripIDRegex, which is exactly six leading digits in a pattern that accepts the same ids as the documented NYCT format (compared after parsing), only on a successful match, through integer arithmetic only; assigned trips get a vehicle descriptor whose id is the train id, and the function that puts it on the entity stores that very descriptor without writing to it or handing it to a call that overwrites its fields (proto.Merge into it, Reset, Unmarshal); the value handed to the stale-trip filter is false without the descriptor and GetIsAssigned() on every other path; " +
 			"the M-train fix stores only the stop id, under route == \"M\", len == 4 and membership in the table {M11,M12,M13,M14,M16,M18}, its character table is the involution N<->S with everything else untouched, and it runs exactly when PreserveMTrainPlatformsInBushwick is false; " +
 			"the stale filter's extracted decision table equals the definition (unassigned, and no stops or first-stop departure-else-arrival time zero or strictly before the feed time) and ShouldSkip additionally requires the extension and the option. " +
 			"the parsed origin time is multiplied before it is divided, with the factor 6/10 (nothing is computed from the raw number first); (SCAN) no processing loop is left by a break. Not decided: the exhaustive 000000-599999 arithmetic of the origin-time conversion (numerical; only its integer-ness, source and scaling shape are checked).",
@@ -31,7 +31,7 @@ func init() {
 		ID: "C17",
 		Explain: "Grouping semantics over all feeds is not decided; decided are structural clauses of the NYCT alerts extension for every option combination: " +
 			"(ALRT) the timetabled no-service table is exactly {no midday, no overnight, no weekend service} and an alert is dropped only under the option and membership of the entity's priority in it; metadata is appended only under AddNyctMetadata with the documented language tag; the cause is MAINTENANCE / TECHNICAL_PROBLEM by id prefix and otherwise the wire cause, the effect comes from the priority table; the priority is the number after the last ':' of the sort order; " +
-			"elevator alerts: cause maintenance, effect accessibility issue; the group id per policy is <station>#EL<elevator> / elevator:EL<elevator> / <platform>#EL<elevator> from the three regexp groups; the informed stop is the station id when configured, else the platform id; a stop is appended only if a scan over all of the group's informed entities found no equal stop id; every write of the elevator path is dominated by a successful id match and `false` is answered only under a failed match; in UpdateAlert `false` is answered only after the loop over all informed entities; the priority of an informed entity is reported missing only without a Mercury selector, without ':' in the sort order or for a non-numeric tail; InformedEntity on the elevator path is only ever emptied or extended by one fresh selector that carries nothing but the stop id; the duplicate test compares the stored stop ids with the very value that is appended; (SCAN) the loop over the informed entities is not left by a break. " +
+			"elevator alerts: cause maintenance, effect accessibility issue; the group id per policy is <station>#EL<elevator> / elevator:EL<elevator> / <platform>#EL<elevator> from the three regexp groups; the informed stop is the station id when configured, else the platform id; a stop is appended only if a scan over all of the group's informed entities found no equal stop id; every write of the elevator path is dominated by a successful id match and `false` is answered only under a failed match; in UpdateAlert `false` is answered only after the loop over all informed entities; the priority of an informed entity is reported missing only without a Mercury selector, without ':' in the sort order or for a non-numeric tail; InformedEntity on the elevator path is only ever emptied or extended by one fresh selector that carries nothing but the stop id; the duplicate test compares the stored stop ids with the very value that is appended; no container held by the extension object other than the table of group alerts is both written and read on the alert path (what is produced for one alert does not depend on the alerts before it); (SCAN) the loop over the informed entities is not left by a break. " +
 			"The extension's cross-feed state is reported under C06/C18 (known finding D12).",
 		Rules: []Rule{
 			{Name: "SCAN", Doc: "a loop that does something for each element is not left early (no break out of a processing loop)", MinInstances: 1, Run: func(c *Ctx) { runFullScan(c, c.regionOf(c.anchor("nyctalerts:(extension).UpdateAlert")), "SCAN") }},
